@@ -133,6 +133,11 @@ def _inits():
         ('rows_headers_1col', lambda: dictable([[1], ['x'], [None]], ['a']), Model(['a'], [dict(a=1), dict(a='x'), dict(a=None)])),
         ('zero_rows_headers', lambda: dictable([], ['a', 'b']), Model(['a', 'b'], [])),
         ('zero_rows_columns', lambda: dictable(a=[], b=[]), Model(['a', 'b'], [])),
+        ('zero_rows_plus_scalar', lambda: dictable(a=[], b=1), Model(['a', 'b'], [])),
+        ('zero_rows_plus_none', lambda: dictable(dict(a=[], b=None)), Model(['a', 'b'], [])),
+        ('zero_rows_plus_one', lambda: dictable(a=[], b=['x'], c=2.5), Model(['a', 'b', 'c'], [])),
+        ('zero_rows_pairs', lambda: dictable([('a', []), ('b', 1)]), Model(['a', 'b'], [])),
+        ('zero_row_table_plus_kw', lambda: dictable(dictable(a=[1, 'x'])[[False, False]], c=2.5), Model(['a', 'c'], [])),
         ('scalar_broadcast', lambda: dictable(a=[1, 'x', None], b='x'), Model(['a', 'b'], [dict(a=1, b='x'), dict(a='x', b='x'), dict(a=None, b='x')])),
         ('len1_broadcast', lambda: dictable(a=[1, 2.5], b=['x']), Model(['a', 'b'], [dict(a=1, b='x'), dict(a=2.5, b='x')])),
         ('none_broadcast', lambda: dictable(a=[1, 2.5], b=None), Model(['a', 'b'], [dict(a=1, b=None), dict(a=2.5, b=None)])),
